@@ -75,6 +75,11 @@ func normTokens(t []uint32) []uint32 {
 	return out
 }
 
+// tsOf maps the abstract timestamps 1..3 to the values written into the descriptors: the identity, or (last pass)
+// a day before / at / a day ahead of the merging replica's clock — the result of a merge may depend on the order
+// of the timestamps only, never on where they lie relative to the receiver's clock.
+var tsOf = func(ts int) int64 { return int64(ts) }
+
 // build a fresh descriptor; normalised=true builds the receiver form (sorted, dedup, LEFT without tokens).
 func build(d dspec, ids []string, tb table, normalised bool) *ring.Desc {
 	out := ring.NewDesc()
@@ -84,7 +89,7 @@ func build(d dspec, ids []string, tb table, normalised bool) *ring.Desc {
 		}
 		ts, left := (v-1)/2+1, (v-1)%2 == 1
 		c := tb[ids[i]][ts-1]
-		in := ring.InstanceDesc{Id: ids[i], Addr: "addr-" + ids[i], Zone: "z", Timestamp: int64(ts), State: c.state, RegisteredTimestamp: 1}
+		in := ring.InstanceDesc{Id: ids[i], Addr: "addr-" + ids[i], Zone: "z", Timestamp: tsOf(ts), State: c.state, RegisteredTimestamp: 1}
 		in.Tokens = append([]uint32(nil), c.tokens...)
 		if left {
 			in.State = ring.LEFT
@@ -187,12 +192,19 @@ func TestC03Instances(t *testing.T) {
 		triple = icfg{[]string{"a", "b", "c"}, 3}
 		seq4 = icfg{[]string{"a", "b"}, 3}
 	}
-	rep.Bound = fmt.Sprintf("triples: ids %v × (absent | ts 1..%d × (table content | LEFT)); 4-sequences (start X + 3 updates, every order, 3 groupings, duplicated delivery): ids %v, ts 1..%d; %d content tables (monotone progress; shrinking/unsorted/duplicated/empty token lists); tokens disjoint across ids", triple.ids, triple.maxTS, seq4.ids, seq4.maxTS, len(tables))
+	rep.Bound = fmt.Sprintf("triples: ids %v × (absent | ts 1..%d × (table content | LEFT)); 4-sequences (start X + 3 updates, every order, 3 groupings, duplicated delivery): ids %v, ts 1..%d; %d content tables (monotone progress; shrinking/unsorted/duplicated/empty token lists); tokens disjoint across ids; the first table once more with the three timestamps a day before / at / a day ahead of the receiver's clock", triple.ids, triple.maxTS, seq4.ids, seq4.maxTS, len(tables))
 	rep.Rule = "real Desc.Merge(other,false) on fresh copies: idempotence, commutativity, associativity, delta sufficiency (A⊔change(A,B) ≡ A⊔B and (A⊔X)⊔change(A,B) ≡ (A⊔X)⊔B for every X), nil change ⇒ unchanged, receiver stays normalised, result ≡ per-entry (timestamp, removal) maximum; distinct_nontrivial = distinct canonical merge results"
 	deadline := ev.Deadline(10 * time.Minute)
 	now := time.Now
 	_ = now
-	for ti, tb := range tables {
+	passes := append([]table(nil), tables...)
+	passes = append(passes, tables[0]) // once more with timestamps around the receiver's clock (see tsOf)
+	for ti, tb := range passes {
+		tsOf = func(ts int) int64 { return int64(ts) }
+		if ti == len(tables) {
+			nowU := time.Now().Unix()
+			tsOf = func(ts int) int64 { return nowU + int64(ts-2)*86400 }
+		}
 		// ---- triples ----
 		ids := triple.ids
 		base := 1 + 2*triple.maxTS
